@@ -144,27 +144,42 @@ def check(R, F):
     loads = [(b, st) for b, blk in enumerate(ck.blocks) if not blk['cleanup'] for st in blk['stmts'] if st['k'] == 'assign' and st['rv']['k'] == 'agg' and st['rv']['def'].endswith('MtimeCheckResult::Load')]
     reuse = [(b, st) for b, st in skips if 'make_error_catalog_entry' not in paths.show_operand(ck, st['rv']['ops'][0])]
     errskip = [(b, st) for b, st in skips if 'make_error_catalog_entry' in paths.show_operand(ck, st['rv']['ops'][0])]
-    ok = len(reuse) == 1 and len(errskip) == 1 and len(loads) == 3
-    R.require(ok, 'mtime', Z + 'check_mtime|shape', ck.where(), '1 reuse arm, 1 metadata-error arm, 3 load arms', 'check_mtime has %d reuse, %d error-skip and %d load arms' % (len(reuse), len(errskip), len(loads)))
-    if reuse:
-        b, st = reuse[0]
-        g = paths.dom_guards(ck, b)
+    other = [d for d in ck.defs().get(0, []) if not ck.blocks[d[0]]['cleanup'] and not (d[2] == 'assign' and d[3]['rv']['k'] == 'agg' and d[3]['rv']['def'].split('::')[-1] in ('Skip', 'Load') and 'MtimeCheckResult' in d[3]['rv']['def'])]
+    ok = len(reuse) >= 1 and len(errskip) == 1 and len(loads) >= 1 and not other
+    R.require(ok, 'mtime', Z + 'check_mtime|shape', ck.where(), 'reuse arm(s), 1 metadata-error arm, every other result is Load', 'check_mtime has %d reuse, %d error-skip, %d load results and %d results of another form' % (len(reuse), len(errskip), len(loads), len(other)))
+    FILE_MT = r'(?:[^|&]*(?:and_then|fs::metadata|modified)\([^|&]*\)@Ok\.0)'
+    LOADED_MT = r'(?:arg2@Some\.0@Loaded\.1\.mtime@Some\.0)'
+    for b, st in reuse:
+        g = paths.dom_guards(ck, b, variants=False)
+        conj = []
+        for x in g:
+            m = re.match(r'^true-when\{([^|]*)\} not in \[0\]$', x)
+            conj += m.group(1).split(' & ') if m else [x]
         ev = enum_variants(F, 'db::catalog::Entry') if 'db::catalog::Entry' in F.structs else ['Loaded', 'NotYetLoaded', 'FailedToLoad']
-        c_loaded = any(re.match(r'^discr\(arg2@Some\.0\) in \[%d\]$' % ev.index('Loaded'), x) for x in g)
-        c_path = any(('PathBuf' in x or 'path' in x) and 'eq(' in x and x.endswith('not in [0]') for x in g)
-        c_time = any(('map(' in x or 'unwrap_or' in x) and 'mtime' in x and x.endswith('not in [0]') for x in g)
-        c_ok = any(re.match(r'^discr\(.*metadata.*\) in \[0\]$|^discr\(Result::and_then\(.*\)\) in \[0\]$', x) for x in g)
+        c_loaded = any(re.match(r'^discr\(arg2@Some\.0\) in \[%d\]$' % ev.index('Loaded'), x) for x in conj)
+        c_path = any(paths.guards_equiv(x, y) for x in conj for y in ('PathBuf::eq(arg2@Some.0@Loaded.1.path,arg1.path) not in [0]', 'PathBuf::eq(arg1.path,arg2@Some.0@Loaded.1.path) not in [0]'))
+        c_ok = any(re.match(r'^discr\(.*metadata.*\) in \[0\]$|^discr\(Result::and_then\(.*\)\) in \[0\]$', x) for x in conj)
+        # the freshness test `file mtime <= loaded mtime`, inline ...
+        c_time = any(re.match(r'^[\w:<> ,]*::le\(%s,%s\) not in \[0\]$|^[\w:<> ,]*::ge\(%s,%s\) not in \[0\]$|^[\w:<> ,]*::gt\(%s,%s\) in \[0\]$|^[\w:<> ,]*::lt\(%s,%s\) in \[0\]$' % (FILE_MT, LOADED_MT, LOADED_MT, FILE_MT, FILE_MT, LOADED_MT, LOADED_MT, FILE_MT), x) for x in conj)
+        inline = c_time
+        # ... or as `loaded.mtime.map(|l| mtime <= l).unwrap_or(false)`
+        if not c_time:
+            c_time = any(re.match(r'^Option::unwrap_or\(Option::map\(arg2@Some\.0@Loaded\.1\.mtime,check_mtime::\{closure#\d+\}\{%s\}\),false\) not in \[0\]$' % FILE_MT, x) for x in conj)
         R.require(c_loaded and c_path and c_time and c_ok, 'mtime', Z + 'check_mtime|reuse-conditions', ck.where(b),
                   'reuse only under Loaded && same path && mtime <= loaded mtime', 'the reuse arm is guarded by Loaded=%s same-path=%s mtime-test=%s metadata-ok=%s; guards %s' % (c_loaded, c_path, c_time, c_ok, g))
         # the comparison is mtime <= loaded_mtime
-        cmpc = [c for c in F.closures_of(ck.gpath) if any(callee_name(t).endswith('::le') or callee_name(t).endswith('::ge') or callee_name(t).endswith('::lt') or callee_name(t).endswith('::gt') for b2, t in c.calls())]
-        okc = False
-        for c in cmpc:
-            for b2, t in c.calls():
-                if callee_name(t).endswith('PartialOrd>::le') or callee_name(t).endswith('::le'):
-                    a0 = paths.show_operand(c, t['args'][0])
-                    a1 = paths.show_operand(c, t['args'][1])
-                    okc = a0.startswith('arg1.0') and a1 == 'arg2' or (a0.startswith('arg1') and a1.startswith('arg2'))
+        okc = inline
+        if not inline:
+            cmpc = [c for c in F.closures_of(ck.gpath) if any(callee_name(t).split('::')[-1] in ('le', 'ge', 'lt', 'gt') for b2, t in c.calls())]
+            for c in cmpc:
+                for b2, t in c.calls():
+                    op = callee_name(t).split('::')[-1]
+                    if op in ('le', 'ge'):
+                        a0 = paths.show_operand(c, t['args'][0])
+                        a1 = paths.show_operand(c, t['args'][1])
+                        if op == 'ge':
+                            a0, a1 = a1, a0
+                        okc = a0.startswith('arg1') and a1.startswith('arg2')
         R.require(okc, 'mtime', Z + 'check_mtime|mtime-not-newer', ck.where(), 'file mtime <= loaded mtime', 'the freshness test is not `file mtime <= loaded mtime`')
         # the reused entry is the loaded zone itself
         ent = paths.show_operand(ck, st['rv']['ops'][0])
